@@ -184,12 +184,6 @@ def firstOfJson (j : Json) : Except String FirstObs :=
     else if let .ok e := j.getObjValAs? String "raised" then .ok (.raised e)
     else .error s!"bad first obs {j.compress}"
 
-def firstObsOf : FirstOut → FirstObs
-  | .found v => .found v
-  | .default => .default
-  | .raised e => .raised e
-  | .oof => .oof
-
 /-- fuel for the model runs: far above anything a generated case needs -/
 def FUEL : Nat := 4000
 
